@@ -203,7 +203,7 @@ LEVEL_TEXT = ('Proved in Coq for all inputs: the generated halo depth (rows <-> 
               'int(max_distance/cellsize + 1/2)) contains every cell within EUCLIDEAN or MANHATTAN max_distance of any block '
               'cell (over Q); max_distance >= max possible distance runs one block and that equals the NumPy computation; '
               'if block results were exact nearest-within-max_distance, chunked = whole. Bounded (vm_compute): for the real '
-              'heuristic, every layout x every chunking x max_distance in {1, 3/2, 2} on grids up to 3x3: chunked = whole. '
+              'heuristic, every layout x every chunking x max_distance = 1 on grids up to 3x3 (and 3/2, 2 on grids with <= 6 cells): chunked = whole. '
               'The unbounded statement for the heuristic is not claimed. Correspondence: Dask vs NumPy vs the extracted '
               'block model on random chunkings.')
 LEVEL_NOTE = ('dask.array.map_overlap (halo exchange, NaN boundary, trimming, chunk merging) is modelled from its '
